@@ -75,6 +75,7 @@ func tlcpConn(ccfg, scfg *tlcp.Config, s scen, roots *smx509.CertPool, now time.
 		cvBits: cvBitsOf(s.cli), finOK: true, tlcp: true, roots: roots, now: now}
 	st := srv.ConnectionState()
 	ob := connObs{err: r.SErr, resumed: st.DidResume, peers: len(st.PeerCertificates), chains: len(st.VerifiedChains),
+		pleaf: leafOf(st.PeerCertificates), vleaf: chainLeafOf(st.VerifiedChains),
 		req: reqTok(ci.sf), alert: alertTok(ci.sf), cliErr: r.CErr}
 	if r.TimedOut && ob.err == nil {
 		ob.err = fmt.Errorf("timeout")
@@ -97,8 +98,7 @@ func runTLCP(s scen) (string, string) {
 		roots2, now2 := cfg2Of(s.cfg2)
 		ci2, ob2 := tlcpConn(ccfg, tServer(s.pol2, s.suite, roots2, now2, cache), s, roots2, now2)
 		t2 := ci2.tokens("2")
-		_, nowToks := judgeCerts(ci1.ders, roots2, now2, ci1.ecdhe)
-		return t1 + t2 + fmt.Sprintf(" 2.offer=%s now0=%s now1=%s", offerTok(ci2.cf), nowToks[0], nowToks[1]), ob1.tokens("1") + ob2.tokens("2")
+		return t1 + t2 + histTail(ci1, ci2, s.suite, []uint16{suiteID(s.suite)}, roots2, now2), ob1.tokens("1") + ob2.tokens("2")
 	default:
 		ci, ob := tlcpConn(tClient(s.cli, nil), tServer(s.pol, s.suite, st.Root.Pool, pki.Now, nil), s, st.Root.Pool, pki.Now)
 		return ci.tokens("1"), ob.tokens("1")
@@ -139,10 +139,14 @@ func tlcpScriptHist(s scen) (string, string) {
 	ci1, ob1, offer := tlcpScriptConn(s, tServer(s.pol, s.suite, st.Root.Pool, pki.Now, cache), nil, st.Root.Pool, pki.Now)
 	t1 := ci1.tokens("1")
 	roots2, now2 := cfg2Of(s.cfg2)
-	ci2, ob2, _ := tlcpScriptConn(s, tServer(s.pol2, s.suite, roots2, now2, cache), offer, roots2, now2)
+	// the second connection: the same script on the same suite, or (phase decl) another script on
+	// another suite, the session's suite no longer offered by the client / supported by the server
+	s2, srv2 := s.second()
+	scfg2 := tServer(s.pol2, s2.suite, roots2, now2, cache)
+	scfg2.CipherSuites = srv2
+	ci2, ob2, _ := tlcpScriptConn(s2, scfg2, offer, roots2, now2)
 	t2 := ci2.tokens("2")
-	_, nowToks := judgeCerts(ci1.ders, roots2, now2, ci1.ecdhe)
-	return t1 + t2 + fmt.Sprintf(" 2.offer=%s now0=%s now1=%s", offerTok(ci2.cf), nowToks[0], nowToks[1]), ob1.tokens("1") + ob2.tokens("2")
+	return t1 + t2 + histTail(ci1, ci2, s.suite, srv2, roots2, now2), ob1.tokens("1") + ob2.tokens("2")
 }
 
 // tlcpScriptConn runs one scripted-client connection against a real server. With an offer the
@@ -171,7 +175,7 @@ func tlcpScriptConn(s scen, scfg *tlcp.Config, offer *sessOffer, roots *smx509.C
 	pl := scriptPlanOf(s.cli)
 	ccfg := &tlcp.Config{
 		Certificates: []tlcp.Certificate{pair.TCert(pl.sig), pair.TCert(pl.enc)},
-		CipherSuites: []uint16{suiteID(s.suite)}, Time: pki.NowFn, RootCAs: st.Root.Pool,
+		CipherSuites: s.offered(), Time: pki.NowFn, RootCAs: st.Root.Pool,
 	}
 	sc := tlcp.NewVerifScript("client", ce, ccfg)
 	if offer != nil {
@@ -277,6 +281,7 @@ func tlcpScriptConn(s scen, scfg *tlcp.Config, offer *sessOffer, roots *smx509.C
 		cvBits: cvBits, finOK: finOK, tlcp: true, roots: roots, now: now}
 	cs := srv.ConnectionState()
 	ob := connObs{err: serr, resumed: cs.DidResume, peers: len(cs.PeerCertificates), chains: len(cs.VerifiedChains),
+		pleaf: leafOf(cs.PeerCertificates), vleaf: chainLeafOf(cs.VerifiedChains),
 		req: reqTok(ci.sf), alert: alertTok(ci.sf), panicked: panicked}
 	if !sc.PeerFinishedOK {
 		ob.cliErr = fmt.Errorf("no server Finished")
